@@ -295,3 +295,72 @@ def st_constructor_call(be, hiN):
 
 FACETS.append(Facet('np/constructor-call', f_constructor_call, strategy=lambda t: st_constructor_call('np', 4), examples={'quick': 500, 'thorough': 20000}))
 FACETS.append(Facet('torch/constructor-call', f_constructor_call, strategy=lambda t: st_constructor_call('torch', 3), examples={'quick': 150, 'thorough': 5000}, backend='torch'))
+
+
+def f_map_history(case):
+    """one CliffordMap object converted to a state several times while it is being edited in place (embed, element-wise sign writes, rotate_by,
+    transform_by): every conversion must describe the map's current value, and to_state().to_map() must return it."""
+    be, N = case['be'], case['N']
+    Bk = B.backend(be)
+    cur = C.dec_clifford(case['rows'])
+    M = Bk.cmap(cur)
+    nconv = nedit = 0
+    for i, stp in enumerate(case['steps']):
+        t = stp['t']
+        if t == 'to_state':
+            r = stp['r'] % (N + 1)
+            S = M.to_state(r)
+            l, k, rr = Bk.read_state(S)
+            EL, EK = B.tableau_rows(cur)
+            nconv += 1
+            C.expect_list((l, k), (EL, EK), 'step %d: to_state() after %d in-place edits of the map' % (i, nedit), 'history-to_state')
+            check(rr == r, 'step %d: rank %r expected %r' % (i, rr, r), 'history-rank')
+            C.expect_list(Bk.read_list(S.to_map()), (cur.L, cur.K), 'step %d: to_state().to_map()' % i, 'history-to_map')
+        elif t == 'embed':
+            q = stp['qubits']
+            small = C.dec_clifford(stp['rows'])
+            M.embed(Bk.cmap(small), Bk.mask(q, N)); nedit += 1
+            Lx, Kx = cur.L.copy(), cur.K.copy()
+            for a, qa in enumerate(q):
+                for b2 in (0, 1):
+                    row = Lx[2 * qa + b2].copy(); row[q] = small.L[2 * a + b2]
+                    Lx[2 * qa + b2] = row; Kx[2 * qa + b2] = small.K[2 * a + b2]
+            # embed overwrites the block rows/columns: only meaningful when the host block was the identity -> rebuild as reference embed into current
+            cur = ref.RefClifford(Lx, Kx)
+            if not cur.is_valid():
+                return {'nt': False, 'labels': ['embed-made-invalid-map']}
+        elif t == 'flip':
+            j = stp['j'] % (2 * N)
+            M.ps[j] = (M.ps[j] + 2) % 4; nedit += 1
+            Kx = cur.K.copy(); Kx[j] = (Kx[j] + 2) % 4
+            cur = ref.RefClifford(cur.L, Kx)
+        elif t == 'rotate':
+            gl, gk = ref.parse(stp['gen'])
+            M.rotate_by(Bk.pauli(gl, gk)); nedit += 1
+            cur = ref.RefClifford(*ref.rotate_rule(cur.L, cur.K, gl, gk))
+        elif t == 'transform':
+            o = C.dec_clifford(stp['rows'])
+            M.transform_by(Bk.cmap(o)); nedit += 1
+            cur = cur.compose(o)
+    ts = [x['t'] for x in case['steps']]
+    cv = [i for i, x in enumerate(ts) if x == 'to_state']
+    return {'nt': len(cv) >= 2 and any(x != 'to_state' for x in ts[cv[0]:cv[-1]]), 'labels': ['N=%d' % N, 'conversions=%d' % min(nconv, 5)]}
+
+
+def st_map_history(be, hiN):
+    def inner(N):
+        conv = st.fixed_dictionaries({'t': st.just('to_state'), 'r': st.integers(0, 6)})
+        edit = st.one_of(
+            st.fixed_dictionaries({'t': st.just('flip'), 'j': st.integers(0, 11)}),
+            st.fixed_dictionaries({'t': st.just('rotate'), 'gen': gen.st_herm(N, nonidentity=True)}),
+            st.fixed_dictionaries({'t': st.just('transform'), 'rows': gen.st_clifford_rows(N)}),
+            st.integers(1, min(N, 2)).flatmap(lambda n: st.fixed_dictionaries({'t': st.just('embed'), 'qubits': gen.st_subset(N, n), 'rows': gen.st_clifford_rows(n)})))
+        mid = st.lists(st.one_of(edit, edit, conv), min_size=1, max_size=6)
+        # start from the identity half of the time so that embeds keep the map valid
+        rows = st.one_of(st.just(ref.RefClifford.identity(N).rows()), gen.st_clifford_rows(N))
+        return st.fixed_dictionaries({'be': st.just(be), 'N': st.just(N), 'rows': rows, 'steps': st.tuples(conv, mid, conv).map(lambda t: [t[0]] + t[1] + [t[2]])})
+    return st.integers(1, hiN).flatmap(inner)
+
+
+FACETS.append(Facet('np/map-histories', f_map_history, strategy=lambda t: st_map_history('np', 4), examples={'quick': 800, 'thorough': 40000}, shards={'quick': 1, 'thorough': 4}))
+FACETS.append(Facet('torch/map-histories', f_map_history, strategy=lambda t: st_map_history('torch', 3), examples={'quick': 250, 'thorough': 10000}, shards={'quick': 1, 'thorough': 4}, backend='torch'))
